@@ -706,6 +706,15 @@ class Interp:
             src = plain.resolve(self, src)
         if isinstance(src, (plain.VPList, plain.VPMap, plain.VPIter)):
             return self.symbolic_for(st, env, src)
+        if isinstance(src, VSeq) and self.loop_spec() is not None:
+            # a homogeneous list of symbolic length (list[str] / list[int] argument): arbitrary element, invariant rule
+            seq = src
+            n = VInt(z3.Length(seq.e))
+            def elem(it_, hint, seq=seq):
+                i = it_.fresh_int("seq_i", 0)
+                it_.assume(i.e < z3.Length(seq.e))
+                return VStr(seq.e[i.e]) if seq.kind == "str" else VInt(seq.e[i.e])
+            return self.symbolic_for(st, env, plain.VPList(self, self.fresh_name("seq"), elem, n=n))
         spec = self.loop_spec()
         if spec is not None and spec.get("__all_for__"):
             return self.symbolic_for(st, env, VList(self.iterate(src)))
@@ -754,6 +763,8 @@ class Interp:
     def _loop_effects(self, body, target=None):
         """(assigned names, mutated names) of a loop body, syntactically (over-approximation)."""
         assigned, mutated = set(), set()
+        called = {}
+        self._loop_called = called
         MUT = {"append", "extend", "insert", "pop", "remove", "update", "setdefault", "clear", "sort", "reverse", "popitem", "add", "discard"}
 
         def root(n):
@@ -772,6 +783,8 @@ class Interp:
                     r = root(n.func.value)
                     if r is not None:
                         mutated.add(r)
+                elif isinstance(n, ast.Call) and isinstance(n.func, ast.Attribute) and isinstance(n.func.value, ast.Name):
+                    called.setdefault(n.func.value.id, set()).add(n.func.attr)
                 elif isinstance(n, ast.ExceptHandler) and n.name:
                     assigned.add(n.name)
                 elif isinstance(n, (ast.Import, ast.ImportFrom)):
@@ -806,19 +819,72 @@ class Interp:
             elif name in mutated and name not in assigned:
                 if cur is not None and not isinstance(cur, (VClass, VBuiltin)):
                     raise OutOfSubset(f"loop at line {st.lineno} mutates {name} but no invariant shape is declared for it")
+        # methods called on loop-external repository objects: a method that writes attributes of its receiver mutates loop-carried state
+        for name, meths in sorted(getattr(self, "_loop_called", {}).items()):
+            cur = env.lookup(name)
+            if name in assigned or not isinstance(cur, VObj) or getattr(cur, "abstract", False):
+                continue
+            if not any(self._method_writes_receiver(cur.cls, m) for m in meths):
+                continue
+            if name not in spec:
+                raise OutOfSubset(f"loop at line {st.lineno} calls a mutating method on {name} but no invariant is declared for it")
+            shape = spec[name]
+            if callable(shape) and not isinstance(shape, type):
+                shape = shape(self, env)
+            shapes.check_shape(self, f"invariant-init:{name}", cur, shape, f"{name} does not satisfy {shape!r} on loop entry")
+            declared.append((name, shape))
         for name, shape in declared:
-            env.set(name, shapes.make(self, shape, name))
+            if isinstance(shape, shapes.ObjInvT):
+                shapes.havoc_object(self, env.lookup(name), shape, name)
+            else:
+                env.set(name, shapes.make(self, shape, name))
         for name in sorted(assigned):
             if name not in spec:
                 env.set(name, VPoison(f"value of {name} from an earlier loop iteration (not declared loop-carried)"))
         return declared
 
+    def _method_writes_receiver(self, ci, mname, depth=0, seen=None):
+        """Does method `mname` of class ci (or a method of the same object it calls) store into attributes of its receiver?"""
+        seen = set() if seen is None else seen
+        if (id(ci), mname) in seen or depth > 4:
+            return False
+        seen.add((id(ci), mname))
+        a, _ = ci.lookup(mname)
+        if not isinstance(a, VFunc):
+            return False
+        fi = a.info
+        if fi.kind in ("static", "class"):
+            return False
+        params = [p.arg for p in fi.node.args.args]
+        if not params:
+            return False
+        me = params[0]
+        MUT = {"append", "extend", "insert", "pop", "remove", "update", "setdefault", "clear", "sort", "reverse", "popitem", "add", "discard"}
+        for n in ast.walk(fi.node):
+            tgt = None
+            if isinstance(n, (ast.Attribute, ast.Subscript)) and isinstance(n.ctx, (ast.Store, ast.Del)):
+                tgt = n
+            elif isinstance(n, ast.Call) and isinstance(n.func, ast.Attribute) and n.func.attr in MUT:
+                tgt = n.func.value
+            if tgt is not None:
+                r = tgt
+                while isinstance(r, (ast.Attribute, ast.Subscript)):
+                    r = r.value
+                if isinstance(r, ast.Name) and r.id == me:
+                    return True
+            if isinstance(n, ast.Call) and isinstance(n.func, ast.Attribute) and isinstance(n.func.value, ast.Name) and n.func.value.id == me:
+                if self._method_writes_receiver(ci, n.func.attr, depth + 1, seen):
+                    return True
+        return False
+
     def _loop_step_done(self, declared, env):
         from . import shapes
         for name, shape in declared:
             cur = env.lookup(name)
-            ok = cur is not None and not isinstance(cur, VPoison) and shapes.conforms(self, cur, shape)
-            shapes.note_obligation(self, f"invariant-step:{name}", ok, f"{cur!r} is not of shape {shape!r}")
+            if cur is None or isinstance(cur, VPoison):
+                shapes.note_obligation(self, f"invariant-step:{name}", False, f"{name} is unbound after the iteration")
+            else:
+                shapes.check_shape(self, f"invariant-step:{name}", cur, shape, f"{cur!r} is not of shape {shape!r}")
         raise PathEnd()
 
     def arbitrary_element(self, src, hint="elem"):
@@ -837,6 +903,10 @@ class Interp:
         what = src.what if isinstance(src, plain.VPIter) else "keys"
         self.assume(m.n.e > 0)
         k = plain.resolve_key(self, m.key_fn(self, f"{m.name}@key"))
+        kid = plain._key_id(k)
+        if kid is not None:
+            m.presence = getattr(m, "presence", {})
+            m.presence[kid] = z3.BoolVal(True)  # a key handed out by iteration is in the mapping
         if what == "keys":
             return k
         v = m.value_at(self, k)
